@@ -21,6 +21,7 @@ CONFIG = dict(
     assumptions=["the backend (stub) succeeds in every call and returns every STATUS item it is asked for",
                  "goroutine liveness, real panics and stack growth are runtime facts: the theorems are about the model, the observations cover the runtime on the explored inputs"],
     leanchecker=True,
+    source_facts=True,
     timeout=dict(quick=600, thorough=7200, widen=1800),
     level_text="proof: theorems about the mirrored server (every run ends with the connection closed and the session closed exactly once whatever the cut point, a literal is buffered only if it is at most 4096 octets, an APPEND over the limit is refused before any payload octet is consumed, the recursion depth of every recursive parser is bounded) for all byte streams; the mirror is tied to the real server on every run (every corpus transcript cut at every offset, generated, mutated and garbage streams, depth probes in a crash-isolating child) and the oracle judges panic reports, Close() counts, tracked connections, Session.Idle calls still running after the connection is gone (per connection, polled to a 30 s deadline), goroutine count, argument sizes and APPEND refusals (an over-limit literal must be refused before its payload arrives) of the implementation",
     level_note="Trusted: Lean kernel; harness/driver. Partial: goroutine liveness, real panics and stack usage are observed, not proved. The list of proved / oracle-only clauses is at the top of lean/GoImap/Props/C06.lean.",
